@@ -24,8 +24,11 @@ def run(cmd, cwd=None, timeout=1200):
 
 def main():
     seed, prop = sys.argv[1].rstrip("/"), sys.argv[2]
-    others = sys.argv[3:]
+    others = [a for a in sys.argv[3:] if not a.startswith("--")]
     n = os.path.basename(seed)
+    for a in sys.argv[3:]:
+        if a.startswith("--name="):
+            n = a[len("--name="):]
     patch = os.path.join(seed, "patch.diff")
     meta = {"property": prop, "seed": n, "source": seed}
     wt = f"/tmp/seedwt-{prop}-{n}-{os.getpid()}"
